@@ -229,7 +229,15 @@ class Session:
                 if act["f"] == "data" and self.ranks[act["t"]] == 0:
                     t.write_rows([tuple(r) for r in target_data(act["t"], 0, act["v"])], [0, 1, 2])
                 elif act["f"] == "data":
-                    t[:] = target_data(act["t"], self.ranks[act["t"]], act["v"])
+                    new = target_data(act["t"], self.ranks[act["t"]], act["v"])
+                    how = self.rnd.randrange(3)
+                    if how == 0:
+                        t[:] = new
+                    elif how == 1:
+                        t.write_direct(new)
+                    else:
+                        # in place through a view onto the whole array
+                        t.get_slice(tuple(0 for _ in new.shape), new.shape)[...] = new
                 elif act["f"] == "unit":
                     t.unit = UNITS[act["v"]]
                 else:
